@@ -211,7 +211,13 @@ func (e *Engine) evalBinary(c *evalCtx, n *EBinary) Val {
 	case "||":
 		return boolVal(Or(e.evalBool(c, n.X), e.evalBool(c, n.Y)))
 	case "==>":
-		return boolVal(Implies(e.evalBool(c, n.X), e.evalBool(c, n.Y)))
+		// lazy: a consequent that mentions variables not yet defined on this path is not evaluated when the
+		// antecedent is false here (syntactically, or by the path condition)
+		a := e.evalBool(c, n.X)
+		if a.IsFalse() || (!a.hasBound && c.st.knows(Not(a))) {
+			return boolVal(True)
+		}
+		return boolVal(Implies(a, e.evalBool(c, n.Y)))
 	case "<==>":
 		return boolVal(Eq(e.evalBool(c, n.X), e.evalBool(c, n.Y)))
 	}
